@@ -1,4 +1,5 @@
 import GojaModel.C01.EmitProof
+import GojaModel.C01.Flat
 /-!
   C01 property theorems.  Every `theorem` here is one audited proof obligation.
 
@@ -39,6 +40,26 @@ theorem emit_height_exec (cfg : Cfg) (e : Expr) (p : Bool) (h : Nat) :
     (emitG cfg e p).height (.live h) = some .dead ∨
     (emitG cfg e p).height (.live h) = some (.live (h + if p then 1 else 0)) :=
   (emit_height cfg e p h).sound
+
+/-- The discipline holds for the FLAT instruction sequence the compiler lays out (relative jump offsets, `Code.flat`),
+executed by the abstract machine of part (b): wherever the code of an expression sits inside a program
+(`Placed code lo …`), every run by normal steps that enters it at `lo` with `h` operands stays inside the fragment,
+leaves the try frames and variadic markers untouched, finds the operands of every instruction it executes above the
+entry height, and leaves the fragment only at its end, with exactly `h + 1` (putOnStack) resp. `h` operands.
+(Throws leave the fragment for a handler whose entry height is fixed by its try frame: `unwind_height`.) -/
+theorem emit_flat_sound (cfg : Cfg) (e : Expr) (p : Bool) (h : Nat)
+    (code : List Node) (lo : Nat) (vs : List Nat) (fs : List Frame)
+    (hp : Placed code lo (emitG cfg e p).nodes) (t : St)
+    (hr : RunIn code lo (lo + (emitG cfg e p).len) ⟨lo, h, vs, fs⟩ t) :
+    Within code lo (emitG cfg e p).len h (h + if p then 1 else 0) vs fs t :=
+  flat_sound (emit_height cfg e p h) code lo vs fs hp t hr
+
+/-- Bridging theorem in general: the structured height judgement is sound for the flat layout of ANY structured
+code (so `Code.height`/`HasHt` mean what they claim about jump-offset code). -/
+theorem hasHt_flat_sound (c : Code) (h k : Nat) (hh : HasHt c h k)
+    (code : List Node) (lo : Nat) (vs : List Nat) (fs : List Frame) (hp : Placed code lo c.nodes) (t : St)
+    (hr : RunIn code lo (lo + c.len) ⟨lo, h, vs, fs⟩ t) : Within code lo c.len h k vs fs t :=
+  flat_sound hh code lo vs fs hp t hr
 
 /-- Regression lemma about the mechanism BEFORE fix 5a4962f (`emitBindingSetPrefix`): `f = 5` with `f` the sloppy
 function-expression name and the value discarded — right operand followed by the old `emitSetP` — ended one operand
